@@ -44,6 +44,11 @@ def _gen_plant_case(rng, idx, kind=None, n=None):
     spec = dict(espec, type="hybrid" if kind == "hybrid" else "mech_elec", lines=ids)
     spec["electric"] = espec["electric"] + ptis
     spec["mechanical"] = mech + [{"kind": "pti_pto_ref", "name": p["name"]} for p in ptis]
+    if rng.random() < 0.6:       # the two component lists are written independently: the shared PTI/PTOs come in another order
+        others = [c for c in spec["mechanical"] if c["kind"] != "pti_pto_ref"]
+        refs = [c for c in spec["mechanical"] if c["kind"] == "pti_pto_ref"][::-1]
+        merged = others + refs
+        spec["mechanical"] = [merged[i] for i in rng.permutation(len(merged))] if len(refs) < 2 else others[:1] + refs + others[1:]
     if kind == "hybrid" and not ptis:
         return _gen_plant_case(rng, idx, kind, n)
     ein = E.gen_inputs(rng, spec, n=n, capacity_ok=True)
